@@ -70,7 +70,9 @@ func main() {
 		Extra: map[string]func(*core.Env, []string) int{
 			"child-run":     childRun,
 			"child-inspect": childInspect,
+			"child-corrupt": childCorrupt,
 			"dry":           wrap(dryRun),
+			"selftest":      wrap(selfTest),
 			"sweep":         func(*core.Env, []string) int { return 0 },
 		},
 	})
